@@ -149,7 +149,7 @@ def materialise_assembly(case):
     geom = refmodel.geometry(enz)
     site, nn, k = geom
     cap = gen.max_distinct_overhangs(k) - 1
-    nm = rng.randint(1, max(1, min(opts["max_chain"], cap)))
+    nm = rng.randint(1 if opts["max_chain"] <= 6 else 7, max(1, min(opts["max_chain"], cap)))
     for attempt in range(50):
         # some overhang choices cannot be embedded without creating a further site; draw again
         ov = gen.gen_overhangs(rng, k, nm + 1, forbid=(site, rc(site)), palindromes=opts.get("palindromes", 0.5))
@@ -178,7 +178,7 @@ def materialise_assembly(case):
             nrefs = rng.randint(0, 5) if rng.random() < 0.8 else rng.randint(10, 14)   # two-digit citation indices now and then
             if nrefs or rng.random() < 0.5:
                 # pairwise distinct within a record; shared between records through the common pool
-                spec["refs"] = [_ref(j) for j in rng.sample(range(REF_POOL), nrefs)]
+                spec["refs"] = [dict(_ref(j), span=rng.random() < 0.5) for j in rng.sample(range(REF_POOL), nrefs)]
         r = 0
         if opts["rotate"]:
             if rng.random() < 0.6:
